@@ -537,6 +537,31 @@ def run(plan, stats):
                                        {'churn_index': ix, 'diff': diff, 'real_error': real.error, 'ref_error': ref.error}))
                 break
         stats.probes['sequence_of_short_lived_models'] += 1
+    # executions WITHOUT an options argument (and with an empty one): each starts from nothing — a model that reads a
+    # global it sets itself must see it unset every time
+    if not viols and plan.get('seed', 0) % 5 == 0:
+        from bare_script import execute_script as _exec
+        from .. import ir as _ir
+        name = 'nOpt%d' % (plan.get('seed', 0) % 3)
+        probe = [_ir.st_jump('seen', _ir.call('systemGlobalGet', _ir.s(name))),
+                 _ir.st_expr(_ir.num(1), name),
+                 _ir.st_function('fnOpt', [], [_ir.st_return(_ir.s('bound'))]),
+                 _ir.st_return(_ir.s('first')),
+                 _ir.st_label('seen'),
+                 _ir.st_return(_ir.s('again'))]
+        seen = []
+        for how in ('omitted', 'omitted', 'none', 'empty', 'omitted'):
+            m = {'statements': copy.deepcopy(probe)}
+            try:
+                seen.append(_exec(m) if how == 'omitted' else _exec(m, None) if how == 'none' else _exec(m, {}))
+            except Exception as exc:  # pylint: disable=broad-except
+                seen.append(f'{type(exc).__name__}: {exc}')
+        stats.c['evaluations'] += len(seen)
+        stats.probes['executions_without_options'] += 1
+        dig.append(seen)
+        if seen != ['first'] * 5:
+            viols.append(Violation(PROP, 'repeat', 'execution-without-options-sees-an-earlier-execution',
+                                   {'results': seen, 'expected': ['first'] * 5}))
     sample = None
     if plan.get('seed', 0) % 41 == 1:
         from .. import ir
